@@ -32,7 +32,8 @@ RULE = ('positions: the C07 program stream (every statement production, expressi
         'arbitrary unicode strings, random OAL token sequences, 1-3 token edits and truncations of '
         'generated programs, long repetitions (unterminated /* with many newlines or stars, quotes, '
         'digits, "end" + white space) under a 5 s CPU budget. Non-trivial = a program with at least two '
-        'lines (positions) or a text that is not a generated program (totality); distinct by hash of the text.')
+        'lines (positions) or a text that is not a generated program (totality); distinct by hash of the text.'
+        ' Totality also on long / deep valid programs (sums, stacked unary operators, nested blocks, chains of 60-4000 repetitions, half of them edited) parsed under the default recursion limit; any exception but the parse exception is a violation, RecursionError included.')
 ASSUMPTIONS = ['lines and columns are 1-based, a column counts characters (a tab is one), the end column is '
                'the column of the last character of the last token',
                'a parenthesised expression\'s span includes its parentheses',
